@@ -78,6 +78,10 @@ func (s scen) argsSource() string {
 		return "out := chan()\nfunc outer(a, b) { go func() { out <- 1\n out <- 2 }()\n return 5 }\n" + start("outer", "0, 0", "t") + "got(\"w\", " + wait("t") + ")\ngot(\"n\", [<-out, <-out])\n\"done\"\n"
 	case "map-spawn":
 		return "func worker(j) { return j * 10 }\nts := [1, 2, 3].map(worker.spawn)\ngot(\"n\", ts.map(func(t) { return t.wait() }))\n\"done\"\n"
+	case "error-wait-twice":
+		// every wait() on a failed thread raises its error: also after another waiter has caught it, whichever
+		// way that waiter called wait (the method value handed to try, or a call inside a function)
+		return "func boom(a, b) { return [a][b] }\n" + start("boom", "1, 5", "t") + "r1 := try(t.wait, func(e) { return \"caught1\" })\nr2 := try(func() { return t.wait() }, func(e) { return \"caught2\" })\nr3 := try(t.wait, func(e) { return \"caught3\" })\ngot(\"w\", [r1, r2, r3])\n\"done\"\n"
 	case "error":
 		// wait() returns the spawned call's error
 		return "func boom(a, b) { return [a][b] }\n" + start("boom", "1, 5", "t") + "r := try(func() { return " + wait("t") + " }, func(e) { return \"caught\" })\ngot(\"w\", r)\n\"done\"\n"
@@ -191,14 +195,15 @@ func (s scen) judge(x *dsched.Exec, st *state) (violation, key string) {
 			return "tasks still running after the evaluation returned: " + strings.Join(x.Leftover, "; "), "leftover"
 		}
 		want := map[string]string{
-			"reassign":        `"w":[1, "s"] "x":2`,
-			"closure-counter": `"w":1 "w":2 "n":15`,
-			"error":           `"w":"caught"`,
-			"each-spawn":      `"n":[1, 2, 3]`,
-			"map-spawn":       `"n":[10, 20, 30]`,
-			"wide-helper":     `"n":[10, 20, 30] "w":[12, 22, 32]`,
-			"nested-spawn":    `"n":7 "w":14`,
-			"nested-go":       `"w":5 "n":[1, 2]`,
+			"reassign":         `"w":[1, "s"] "x":2`,
+			"closure-counter":  `"w":1 "w":2 "n":15`,
+			"error":            `"w":"caught"`,
+			"error-wait-twice": `"w":["caught1", "caught2", "caught3"]`,
+			"each-spawn":       `"n":[1, 2, 3]`,
+			"map-spawn":        `"n":[10, 20, 30]`,
+			"wide-helper":      `"n":[10, 20, 30] "w":[12, 22, 32]`,
+			"nested-spawn":     `"n":7 "w":14`,
+			"nested-go":        `"w":5 "n":[1, 2]`,
 		}[s.Args]
 		if s.Args == "error" && s.Spawn == "go" {
 			// the go statement has no handle: the error of the spawned call is not observable through wait()
@@ -305,6 +310,7 @@ func scenarios(thorough bool) []scen {
 	for _, sp := range spawns {
 		out = append(out, scen{Spawn: sp, Args: "nested-spawn"}, scen{Spawn: sp, Args: "nested-go"})
 	}
+	out = append(out, scen{Spawn: "spawn", Args: "error-wait-twice"}, scen{Spawn: "fnspawn", Args: "error-wait-twice"})
 	if !thorough {
 		for _, sr := range [][2]int{{1, 1}, {1, 2}, {2, 1}} {
 			for _, b := range []int{0, 1} {
